@@ -146,6 +146,8 @@ def frac(x, scale=1):
     if not math.isfinite(xs):
         return [0, 1], False
     f = Fraction(xs).limit_denominator(DEN)
+    if abs(f.numerator) > 2 ** 31 - 1:          # cannot be a value of the specification (32-bit bounds): rejected here, not sent
+        return [0, 1], False
     return [f.numerator, f.denominator], abs(float(f) - xs) <= REL * max(1.0, abs(xs))
 
 
